@@ -40,15 +40,22 @@ fn run_one<H: HK>(rep: &mut Report, depth: usize) {
     let b = H::BLOCK;
     let lens = [0usize, 1, b - 1, b, b + 1, 2 * b];
     let (bounds, limit, per_block) = boundaries::<H>();
-    // histories: sequences of <= depth-1 updates followed by finalize
+    // histories: sequences of <= depth-1 operations followed by finalize; an operation is update(l)
+    // or (encoded as usize::MAX / usize::MAX-1) reset / finalize_fixed_reset: after those the counter
+    // must be zero again whatever it was before
+    const RESET: usize = usize::MAX;
+    const FINRESET: usize = usize::MAX - 1;
+    let mut ops: Vec<usize> = lens.to_vec();
+    ops.push(RESET);
+    ops.push(FINRESET);
     let mut hists: Vec<Vec<usize>> = vec![vec![]];
     let mut frontier: Vec<Vec<usize>> = vec![vec![]];
     for _ in 1..depth {
         let mut nf = Vec::new();
         for h in &frontier {
-            for l in lens {
+            for l in &ops {
                 let mut h2 = h.clone();
-                h2.push(l);
+                h2.push(*l);
                 nf.push(h2);
             }
         }
@@ -63,7 +70,7 @@ fn run_one<H: HK>(rep: &mut Report, depth: usize) {
                 None => continue,
             };
             for h in &hists {
-                let total: usize = h.iter().sum();
+                let total: usize = h.iter().filter(|l| **l < usize::MAX - 1).sum();
                 // stay inside the format limit
                 if v.checked_add(units::<H>(total)).map(|x| x >= limit).unwrap_or(true) {
                     continue;
@@ -75,26 +82,7 @@ fn run_one<H: HK>(rep: &mut Report, depth: usize) {
     let res: Vec<_> = cases
         .par_iter()
         .map(|(_c, v, h)| {
-            let mut r = H::reference();
-            r.set_counter(*v);
-            let mut off = 0usize;
-            for l in h {
-                let d: Vec<u8> = (off..off + l).map(|i| pat_byte(7, i)).collect();
-                r.update(&d);
-                off += l;
-            }
-            let want = r.finalize();
-            let got = guarded(|| {
-                let mut d = H::D::new();
-                H::set_counter(&mut d, *v);
-                let mut off = 0usize;
-                for l in h {
-                    let data: Vec<u8> = (off..off + l).map(|i| pat_byte(7, i)).collect();
-                    d.update(&data);
-                    off += l;
-                }
-                d.finalize().to_vec()
-            });
+            let (got, want) = run_history::<H>(*v, h);
             (got, want)
         })
         .collect();
@@ -102,11 +90,11 @@ fn run_one<H: HK>(rep: &mut Report, depth: usize) {
     for (i, (got, want)) in res.into_iter().enumerate() {
         let (c, v, h) = &cases[i];
         rep.evaluations += 1;
-        let total: usize = h.iter().sum();
+        let total: usize = h.iter().filter(|l| **l < usize::MAX - 1).sum();
         if *v < *c && v + units::<H>(total) >= *c {
             crossed += 1;
         }
-        let replay = json!({"engine":"H-stateless","check":"C17","hasher":H::NAME,"boundary":c.to_string(),"counter":v.to_string(),"updates":h});
+        let replay = json!({"engine":"H-stateless","check":"C17","hasher":H::NAME,"boundary":c.to_string(),"counter":v.to_string(),"updates":h.iter().map(|l| if *l == usize::MAX { json!("reset") } else if *l == usize::MAX - 1 { json!("finalize_fixed_reset") } else { json!(l) }).collect::<Vec<_>>()});
         if i % 3001 == 17 {
             rep.sample(replay.clone());
         }
@@ -127,6 +115,46 @@ fn run_one<H: HK>(rep: &mut Report, depth: usize) {
     let mut arr = rep.extra.get("per_hasher").cloned().unwrap_or(json!([]));
     arr.as_array_mut().unwrap().push(json!({"hasher": H::NAME, "cases": cases.len(), "crossing": crossed, "boundaries": bounds.iter().map(|b| b.to_string()).collect::<Vec<_>>()}));
     rep.set("per_hasher", arr);
+}
+
+/// one history on the reference (counter set to v on the initial chaining value) and on the implementation
+fn run_history<H: HK>(v: u128, h: &[usize]) -> (Result<Vec<u8>, String>, Vec<u8>) {
+    let mut r = H::reference();
+    r.set_counter(v);
+    let mut off = 0usize;
+    for l in h {
+        if *l >= usize::MAX - 1 {
+            r = H::reference(); // reset / finalize+reset: a new hasher
+            off = 0;
+            continue;
+        }
+        let d: Vec<u8> = (off..off + l).map(|i| pat_byte(7, i)).collect();
+        r.update(&d);
+        off += l;
+    }
+    let want = r.finalize();
+    let got = guarded(|| {
+        let mut d = H::D::new();
+        H::set_counter(&mut d, v);
+        let mut off = 0usize;
+        for l in h {
+            if *l == usize::MAX {
+                Digest::reset(&mut d);
+                off = 0;
+                continue;
+            }
+            if *l == usize::MAX - 1 {
+                let _ = digest::FixedOutput::finalize_fixed_reset(&mut d);
+                off = 0;
+                continue;
+            }
+            let data: Vec<u8> = (off..off + l).map(|i| pat_byte(7, i)).collect();
+            d.update(&data);
+            off += l;
+        }
+        d.finalize().to_vec()
+    });
+    (got, want)
 }
 
 /// real streaming across `total` bytes without the hook
@@ -192,11 +220,41 @@ fn stream_one<H: HK>(rep: &mut Report, total: u64, tails: &[usize], jh_via_compr
     rep.set("streamed", arr);
 }
 
+/// one single update() call carrying `total` bytes (the per-call arithmetic of update itself)
+fn oneshot_one<H: HK>(rep: &mut Report, total: usize) {
+    let t0 = std::time::Instant::now();
+    let data: Vec<u8> = (0..total).map(|i| pat_byte(9, i % (1 << 16))).collect();
+    let mut r = H::reference();
+    for c in data.chunks(1 << 16) {
+        r.update(c);
+    }
+    let want = r.finalize();
+    let got = guarded(|| {
+        let mut d = H::D::new();
+        d.update(&data);
+        d.finalize().to_vec()
+    });
+    rep.evaluations += 1;
+    rep.nontrivial += 1;
+    let replay = json!({"engine":"stream","check":"C17","hasher":H::NAME,"prefix_bytes":total,"single_update_call":true});
+    match got {
+        Err(p) => rep.violation(&format!("c17:{}:single-call:panic:{}", H::NAME, panic_class(&p)), format!("one update() call with {} bytes panicked: {}", total, p), replay),
+        Ok(g) => {
+            if g != want {
+                rep.violation(&format!("c17:{}:single-call:digest-mismatch", H::NAME), format!("one update() call with {} bytes: digest differs from the reference", total), replay);
+            }
+        }
+    }
+    let mut arr = rep.extra.get("streamed").cloned().unwrap_or(json!([]));
+    arr.as_array_mut().unwrap().push(json!({"hasher": H::NAME, "single_update_call_bytes": total, "wall_s": t0.elapsed().as_secs_f64()}));
+    rep.set("streamed", arr);
+}
+
 pub fn run(tier: &str, config: &str) -> Report {
     let mut rep = Report::new("C17", tier, config);
     let th = tier == "thorough";
     let depth = if th { 4 } else { 3 };
-    rep.rule = format!("hook H2: for every hasher and every counter boundary (BLAKE-224/256 bits 2^32,2^33,2^48,2^63,2^64; BLAKE-384/512 bits 2^32,2^63,2^64,2^65,2^96,2^127,2^128-1; Groestl blocks 2^8,2^16,2^24,2^32,2^40,2^63,2^64; JH bytes 2^29,2^32,2^40,2^56,2^61; Skein bytes 2^32,2^40,2^63,2^64) implementation and reference are set to the same counter value boundary - k blocks (k = 0..4) on the initial chaining value, then every history of <= {} updates (l in {{0,1,B-1,B,B+1,2B}}) + finalize that stays inside the format limit is executed on both; distinct_nontrivial = histories that actually cross a boundary. Real streaming (no hook): Groestl through 2^8 and 2^16 blocks{}.", depth - 1, if th { ", BLAKE-224/256 and JH through 2^32 bits (512 MiB), Skein-512 through 2^32 bytes" } else { " (512 MiB / 4 GiB streams in the thorough tier)" });
+    rep.rule = format!("hook H2: for every hasher and every counter boundary (BLAKE-224/256 bits 2^32,2^33,2^48,2^63,2^64; BLAKE-384/512 bits 2^32,2^63,2^64,2^65,2^96,2^127,2^128-1; Groestl blocks 2^8,2^16,2^24,2^32,2^40,2^63,2^64; JH bytes 2^29,2^32,2^40,2^56,2^61; Skein bytes 2^32,2^40,2^63,2^64) implementation and reference are set to the same counter value boundary - k blocks (k = 0..4) on the initial chaining value, then every history of <= {} operations (update(l), l in {{0,1,B-1,B,B+1,2B}}, reset, finalize_fixed_reset) + finalize that stays inside the format limit is executed on both; distinct_nontrivial = histories that actually cross a boundary. Real streaming (no hook): Groestl through 2^8 and 2^16 blocks{}.", depth - 1, if th { ", BLAKE-224/256 and JH through 2^32 bits (512 MiB, in 64 KiB pieces and, for BLAKE-224/256, also in ONE update call), Skein-512 through 2^32 bytes" } else { " (512 MiB / 4 GiB streams in the thorough tier)" });
     macro_rules! go { ($k:ty) => { run_one::<$k>(&mut rep, depth); }; }
     go!(KBlake224); go!(KBlake256); go!(KBlake384); go!(KBlake512);
     go!(KGroestl224); go!(KGroestl256); go!(KGroestl384); go!(KGroestl512);
@@ -215,6 +273,9 @@ pub fn run(tier: &str, config: &str) -> Report {
         stream_one::<KJh256>(&mut rep, (1 << 29) - 64, &bt, true);
         stream_one::<KJh512>(&mut rep, (1 << 29) - 128, &bt, true);
         stream_one::<KSkein512_64>(&mut rep, (1u64 << 32) - 64, &bt, false);
+        // the same boundary crossed inside ONE update() call
+        oneshot_one::<KBlake256>(&mut rep, (1 << 29) + 200);
+        oneshot_one::<KBlake224>(&mut rep, (1 << 29) + 64);
     }
     let tr = rep.extra.get("transitions").and_then(|v| v.as_u64()).unwrap_or(0);
     rep.set("traces_validated_against_impl", json!(rep.evaluations));
@@ -230,29 +291,10 @@ fn replay_one<H: HK>(v: &Value) -> bool {
         return true;
     }
     let c: u128 = v["counter"].as_str().unwrap().parse().unwrap();
-    let h: Vec<usize> = v["updates"].as_array().unwrap().iter().map(|x| x.as_u64().unwrap() as usize).collect();
-    let mut r = H::reference();
-    r.set_counter(c);
-    let mut off = 0usize;
-    for l in &h {
-        let d: Vec<u8> = (off..off + l).map(|i| pat_byte(7, i)).collect();
-        r.update(&d);
-        off += l;
-    }
-    let want = r.finalize();
-    println!("replay C17 {}: counter set to {} on a fresh instance, updates {:?}, finalize", H::NAME, c, h);
+    let h: Vec<usize> = v["updates"].as_array().unwrap().iter().map(|x| match x.as_str() { Some("reset") => usize::MAX, Some(_) => usize::MAX - 1, None => x.as_u64().unwrap() as usize }).collect();
+    println!("replay C17 {}: counter set to {} on a fresh instance, operations {:?}, finalize", H::NAME, c, v["updates"]);
+    let (got, want) = run_history::<H>(c, &h);
     println!("  expected {}", vref::hex(&want));
-    let got = guarded(|| {
-        let mut d = H::D::new();
-        H::set_counter(&mut d, c);
-        let mut off = 0usize;
-        for l in &h {
-            let data: Vec<u8> = (off..off + l).map(|i| pat_byte(7, i)).collect();
-            d.update(&data);
-            off += l;
-        }
-        d.finalize().to_vec()
-    });
     match got {
         Err(p) => { println!("  observed PANIC {}", p); false }
         Ok(g) => { println!("  observed {}", vref::hex(&g)); g == want }
